@@ -462,6 +462,10 @@ def run_programs(run: Run, pool: Pool, progs, cov: dict, tag: str):
     for (pi, exposed, origin, info), res in zip(meta, results):
         if res["load"] in ("err", "crash"):
             stats["load_err"] += 1
+            if res["load"] == "crash":
+                stats.setdefault("runtime_crashes", [])
+                if len(stats["runtime_crashes"]) < 3:
+                    stats["runtime_crashes"].append({"program": progs[pi], "what": res["load_msg"]})
             stats.setdefault("load_errors", [])
             if len(stats["load_errors"]) < 3:
                 stats["load_errors"].append(res["load_msg"][:160])
@@ -622,21 +626,21 @@ def run(run: Run) -> int:
     cov: dict = {}
     pool = Pool(max(2, min(12, (os.cpu_count() or 4) - 2)))
     t = time.time()
-    n_calls, n_ok, n_mism, samples, n_rt = routines(run, pool, 320 if quick else 2500, cov)
-    n_le = label_encoder_oracle(run, pool, 60 if quick else 500, cov)
+    n_calls, n_ok, n_mism, samples, n_rt = routines(run, pool, 500 if quick else 3000, cov)
+    n_le = label_encoder_oracle(run, pool, 80 if quick else 600, cov)
     cov["phase_wall_s"] = {"routines": round(time.time() - t, 1)}
     t = time.time()
-    n_inl, n_inl_mism, inl_samples = inline_corr(run, 400 if quick else 3000, cov)
+    n_inl, n_inl_mism, inl_samples = inline_corr(run, 500 if quick else 4000, cov)
     cov["phase_wall_s"]["inline"] = round(time.time() - t, 1)
     t = time.time()
     _, opmods = modules()
     rng = run.rng
-    loops = [copy.deepcopy(p) for p in LOOP_CORPUS] + [gen_loop_program(rng) for _ in range(250 if quick else 2000)]
+    loops = [copy.deepcopy(p) for p in LOOP_CORPUS] + [gen_loop_program(rng) for _ in range(300 if quick else 2500)]
     lstats, n_loop, n_loop_mism = run_programs(run, pool, loops, cov, "loop")
     cov["phase_wall_s"]["loop"] = round(time.time() - t, 1)
     t = time.time()
     progs = []
-    for _ in range(500 if quick else 4000):
+    for _ in range(1500 if quick else 8000):
         p = P.gen_program(rng, rng.choice([4, 6, 8, 10]), rng.choice([17, 17, 18, 19, 21]))
         progs.append(P.grow_program(rng, p, opmods))
     pstats, n_loop2, n_loop_mism2 = run_programs(run, pool, progs, cov, "random")
